@@ -183,7 +183,8 @@ def staticCodes : List String :=
 
 /-- codes that depend on what is on disk (`InvalidPart`: a listed part file does not exist — it is also the input-determined
     answer to a complete_multipart_upload without a part list) -/
-def dynCodes : List String := ["AccessDenied", "InternalError", "EntityTooSmall", "NoSuchKey", "NoSuchBucket", "InvalidPart"]
+def dynCodes : List String :=
+  ["AccessDenied", "InternalError", "EntityTooSmall", "NoSuchKey", "NoSuchBucket", "InvalidPart", "NoSuchUpload"]
 
 def labelOfRel (labels : List (Bytes × FsPathSpec.Label)) (rel : Bytes) : FsPathSpec.Label :=
   match labels.find? (·.1 = rel) with
@@ -282,7 +283,8 @@ def judgeCase (outerB cwd : Bytes) (id : String) (i : Inp) (code : String) (chan
               match pl.err with
               | some .invalidArgument => if code = "InvalidArgument" then "refused-key" else "dyn-error"
               | some .invalidBucketName => "refused-bucket"
-              | some .invalidRequest => if code = "InvalidRequest" then "refused-upload-id" else "dyn-error"
+              | some .invalidRequest => if code = "InvalidRequest" then "refused-part-list" else "dyn-error"
+              | some .noSuchUpload => if code = "NoSuchUpload" then "refused-upload-id" else "dyn-error"
               | some _ => if dynCodes.contains code then "dyn-error" else "refused-other"
               | none =>
                 if code = "OK" then
